@@ -33,7 +33,7 @@ from . import common
 ID = "C06"
 LEVEL = "exploration"
 TIERS = {
-    "quick": {"runs": 320, "wall": 60, "run_timeout": 240, "schedules": 4, "hash_seeds": [1, 4242], "hash_runs": 24,
+    "quick": {"runs": 320, "wall": 60, "run_timeout": 240, "schedules": 4, "hash_seeds": [1, 4242], "hash_runs": 40,
               "shrink_s": 60},
     "thorough": {"runs": 12000, "wall": 1100, "run_timeout": 400, "schedules": 6,
                  "hash_seeds": [1, 2, 4242, 31337, 99991, "random"], "hash_runs": 200, "shrink_s": 180},
